@@ -654,7 +654,9 @@ type Router struct {
 	Fallbacks int
 }
 
-func NewRouter(timeoutMs int) *Router { return &Router{TimeoutMs: timeoutMs, solvers: map[string]*Solver{}} }
+func NewRouter(timeoutMs int) *Router {
+	return &Router{TimeoutMs: timeoutMs, solvers: map[string]*Solver{}}
+}
 
 func (r *Router) get(name string) *Solver {
 	if s, ok := r.solvers[name]; ok && !s.dead {
